@@ -467,6 +467,16 @@ wrap_global_functions() {
 }
 
 /**
+ * Returns true if this interface will actually write a wrapper function for
+ * the indicated remap.  A remap for which this returns false gets no wrapper
+ * entry in the database.
+ */
+bool InterfaceMaker::
+is_remap_wrapped(FunctionRemap *remap) {
+  return true;
+}
+
+/**
  * Fills up the indicated vector with all of the FunctionRemap pointers
  * created by this InterfaceMaker.  It is the user's responsibility to empty
  * the vector before calling this function; the new pointers will simply be
@@ -638,6 +648,12 @@ record_function(const InterrogateType &itype, FunctionIndex func_index) {
 
           if (remap->_ForcedVoidReturn) {
             // We don't generate wrappers if we don't understand the return type.
+            continue;
+          }
+
+          if (!is_remap_wrapped(remap)) {
+            // This interface writes no code for this remap, so the database
+            // must not list a wrapper for it either.
             continue;
           }
 
